@@ -89,7 +89,7 @@ def check_c09(tier, seed, verdict, workdir):
         sep = []
         for l in dl[:3] + dl[-3:]:
             t = l.split(" ")
-            spec = t[8:]
+            spec = t[9:]
             rc3, out = drive_lines(["sim-run"] + spec, workdir, f"p{i}")
             got = [x for x in out if x.startswith("D ")]
             sep.append((t[1], got[0].split(" ")[1] if got else "CRASH", " ".join(spec)))
@@ -114,15 +114,16 @@ def check_c09(tier, seed, verdict, workdir):
         for l in dl:
             t = l.split(" ")
             base = t[1]
-            spec = " ".join(t[8:])
+            spec = " ".join(t[9:])
             n_runs += 1
             if len(samples) < 3:
                 samples.append(spec)
-            kv = dict(x.split("=") for x in t[2:8])
+            kv = dict(x.split("=") for x in t[2:9])
             if kv["panic"] == "1":
                 n_panic += 1
             for key, what in (("progress", "progress-bar branch gives a different run"), ("again", "repeated run in the same process differs"),
                               ("manual", "the runner differs from the documented loop `agents.update(env, rng); env.step(rng)` driven by seed_from_u64(seed)"),
+                              ("moved", "moving the environment and the agents in memory between steps (Box, reallocating Vec) changes the run"),
                               ("hand", "derived agent set differs from the hand-written sequence")):
                 if kv[key] != base:
                     a_found.append((what, spec))
@@ -151,7 +152,8 @@ def check_c09(tier, seed, verdict, workdir):
         "evaluations": n_runs * 5 + n_sep,
         "distinct_nontrivial": stats_all.get("sim:with_trades", 0),
         "rule": "generated simulation specifications (single/multi-asset, 1-4 agents of the built-in types combined through the derive macros, "
-                "1-39 steps); each is run with the real runner 5 times in-process (plain, progress bar, hand-written set, repeat, seed+1) and a "
+                "1-39 steps, step sizes 1..1000 so that some steps are over-full); each is run with the real runner 5 times in-process (plain, progress bar, hand-written set, repeat, seed+1), "
+                "as the documented loop, as the documented loop with the environment and agents moved in memory between steps, and a "
                 "subset again in a separate OS process; RandomAgents-only runs are compared bit-for-bit with the Lean model run; non-trivial = "
                 "model-compared runs that contain trades",
         "samples": samples,
